@@ -810,6 +810,17 @@ ssize_t __wrap_writev(int fd, const struct iovec *iov, int iovcnt)
 		if (f->werr_once) {
 			f->werr_once = 0;
 			f->werr_after = -1;
+			if (f->werr_errno == EAGAIN) {
+				/* "would block" for this one call although room comes back at once (the peer was reading at that very
+				 * moment): as after every EAGAIN the kernel announces writability */
+				would_block("writev", fd);
+				if (f->wbudget == 0) {
+					f->blocked = 1; /* nothing is taken anyway: writability is announced when room comes back */
+				} else {
+					f->blocked = 0;
+					if (f->registered && f->state == S_OPEN) raise_edge(f);
+				}
+			}
 		}
 		return -1;
 	}
